@@ -125,7 +125,24 @@ _NEG = {ast.In: ast.NotIn, ast.NotIn: ast.In, ast.Is: ast.IsNot, ast.IsNot: ast.
 
 
 def _is_const(n):
-    return isinstance(n, ast.Constant)
+    return isinstance(n, ast.Constant) and n.value is not Ellipsis      # `...` may be the placeholder: never folded
+
+
+def _closed(n):
+    if isinstance(n, (ast.Tuple, ast.List, ast.Set)):
+        return all(_closed(x) for x in n.elts)
+    if isinstance(n, ast.Dict):
+        return all(k is not None and _closed(k) for k in n.keys) and all(_closed(v) for v in n.values)
+    return _is_const(n)
+
+
+def _truth(n):
+    """True / False if the truth value of n is known and evaluating n has no effect, else None"""
+    if _is_const(n):
+        return bool(n.value)
+    if isinstance(n, (ast.Tuple, ast.List, ast.Set, ast.Dict)) and _closed(n):
+        return bool(n.elts if not isinstance(n, ast.Dict) else n.keys)
+    return None
 
 
 def _try_eval(n):
@@ -157,14 +174,15 @@ class _Norm(ast.NodeTransformer):
 
     def visit_Compare(self, n):
         self.generic_visit(n)
-        if _is_const(n.left) and all(_is_const(x) for x in n.comparators):
+        if _closed(n.left) and all(_closed(x) for x in n.comparators):
             return _try_eval(n)
         return n
 
     def visit_IfExp(self, n):
         self.generic_visit(n)
-        if _is_const(n.test):
-            return n.body if n.test.value else n.orelse
+        t = _truth(n.test)
+        if t is not None:
+            return n.body if t else n.orelse
         return n
 
     def visit_BoolOp(self, n):
@@ -179,8 +197,9 @@ class _Norm(ast.NodeTransformer):
         out = []
         for i, x in enumerate(vals):
             last = i == len(vals) - 1
-            if _is_const(x):
-                decides = (not x.value) if is_and else bool(x.value)
+            t = _truth(x)
+            if t is not None:
+                decides = (not t) if is_and else t
                 if decides:
                     out.append(x)
                     break
@@ -270,7 +289,7 @@ def canon(v, depth=0):
         if type(v) in (tuple, list): return [t, [canon(x, depth + 1) for x in v]]
         if type(v) in (set, frozenset): return [t, sorted((canon(x, depth + 1) for x in v), key=repr)]
         if type(v) is dict: return [t, [[canon(a, depth + 1), canon(b, depth + 1)] for a, b in v.items()]]
-    if callable(v) and getattr(v, "__name__", "") == "<lambda>":
+    if type(v).__name__ in ("function", "cython_function_or_method"):
         try: return ["lambda", canon(v(), depth + 1)]
         except Exception as e: return ["lambda", "raises " + type(e).__name__]
     return [t, repr(v)]
